@@ -406,3 +406,53 @@ package gozxing
 //@   loop 1: use rowIdx(newHeight-1-x, newHeight, newRowSize, y/32)
 //@   loop 1: invariant forall x2 int, y2 int :: hint(rowIdx(y2, newHeight, newRowSize, x2/32)) && hint(rowIdxInj(y2, x2/32, newHeight-x, y/32, newRowSize)) && 0 <= x2 && x2 < newRowSize*32 && 0 <= y2 && y2 < newHeight ==> sget(newBits, newRowSize, x2, y2) == ((x2 < y || (x2 == y && W-1-y2 < x)) && mget(b, W-1-y2, x2))
 //@   loop 1: decreases W - x
+
+// ---------------------------------------------------------------- luminance sources (C17)
+// A view is a window (left, top, Width, Height) into dataWidth x dataHeight bytes; wfRGB/wfYUV say the window lies
+// inside the data. px is the naive 2-D pixel model of the view.
+
+//@ lemma viewRow(r int, h int, w int, c int)
+//@   property C17
+//@   opt nia=on
+//@   requires 0 <= r && r < h && 0 <= c && c <= w
+//@   ensures 0 <= r*w && r*w + c <= w*h
+
+//@ pred wfRGB(s *RGBLuminanceSource) = 0 <= s.Width && 0 <= s.Height && 0 <= s.left && 0 <= s.top && s.left + s.Width <= s.dataWidth && s.top + s.Height <= s.dataHeight && s.dataWidth * s.dataHeight <= len(s.luminances)
+//@ spec func pxRGB(s *RGBLuminanceSource, x int, y int) byte = s.luminances[(y + s.top) * s.dataWidth + s.left + x]
+
+//@ func (this *RGBLuminanceSource) GetRow(y int, row []byte) (r []byte, e error)
+//@   property C17
+//@   requires wfRGB(this) && arr(row) != arr(this.luminances)
+//@   use viewRow(y + this.top, this.dataHeight, this.dataWidth, this.left + this.Width)
+//@   ensures (y < 0 || y >= this.Height) == (e != nil)
+//@   ensures e == nil ==> len(r) >= this.Width && forall x int :: 0 <= x && x < this.Width ==> r[x] == pxRGB(this, x, y)
+//@   ensures forall k int :: 0 <= k && k < len(this.luminances) ==> this.luminances[k] == old(this.luminances[k])
+
+// Crop: a cropped pixel is the original pixel at the offset position; a negative origin or a rectangle leaving the
+// underlying data is an error; the result is again a well-formed view
+//@ func (this *RGBLuminanceSource) Crop(left int, top int, width int, height int) (r LuminanceSource, e error)
+//@   property C17
+//@   requires wfRGB(this)
+//@   let bad = left < 0 || top < 0 || width < 0 || height < 0 || this.left + left + width > this.dataWidth || this.top + top + height > this.dataHeight
+//@   ensures bad == (e != nil)
+//@   ensures e == nil ==> typeis(r, "*RGBLuminanceSource") && wfRGB(ptrof(r, "*RGBLuminanceSource")) && ptrof(r, "*RGBLuminanceSource").Width == width && ptrof(r, "*RGBLuminanceSource").Height == height
+//@   ensures e == nil ==> forall x int, y int :: 0 <= x && x < width && 0 <= y && y < height ==> pxRGB(ptrof(r, "*RGBLuminanceSource"), x, y) == pxRGB(this, x + left, y + top)
+//@   modifies nothing
+
+//@ pred wfYUV(s *PlanarYUVLuminanceSource) = 0 <= s.Width && 0 <= s.Height && 0 <= s.left && 0 <= s.top && s.left + s.Width <= s.dataWidth && s.top + s.Height <= s.dataHeight && s.dataWidth * s.dataHeight <= len(s.yuvData)
+//@ spec func pxYUV(s *PlanarYUVLuminanceSource, x int, y int) byte = s.yuvData[(y + s.top) * s.dataWidth + s.left + x]
+
+//@ func (this *PlanarYUVLuminanceSource) GetRow(y int, row []byte) (r []byte, e error)
+//@   property C17
+//@   requires wfYUV(this) && arr(row) != arr(this.yuvData)
+//@   use viewRow(y + this.top, this.dataHeight, this.dataWidth, this.left + this.Width)
+//@   ensures (y < 0 || y >= this.Height) == (e != nil)
+//@   ensures e == nil ==> len(r) >= this.Width && forall x int :: 0 <= x && x < this.Width ==> r[x] == pxYUV(this, x, y)
+
+//@ func (this *PlanarYUVLuminanceSource) Crop(left int, top int, width int, height int) (r LuminanceSource, e error)
+//@   property C17
+//@   requires wfYUV(this)
+//@   let bad = left < 0 || top < 0 || width < 0 || height < 0 || this.left + left + width > this.dataWidth || this.top + top + height > this.dataHeight
+//@   ensures bad == (e != nil)
+//@   ensures e == nil ==> typeis(r, "*PlanarYUVLuminanceSource") && wfYUV(ptrof(r, "*PlanarYUVLuminanceSource")) && ptrof(r, "*PlanarYUVLuminanceSource").Width == width && ptrof(r, "*PlanarYUVLuminanceSource").Height == height
+//@   ensures e == nil ==> forall x int, y int :: 0 <= x && x < width && 0 <= y && y < height ==> pxYUV(ptrof(r, "*PlanarYUVLuminanceSource"), x, y) == pxYUV(this, x + left, y + top)
